@@ -216,6 +216,14 @@ pub fn selftest() -> Result<(), String> {
         }
         let _ = i;
     }
+    // the searched-for key pairs: different ids, same first eight characters (reference formula)
+    for i in 0..4u8 {
+        let (p, q) = crate::gen::keys::collider_pair(i);
+        let (a, b) = (reference_key_id(&p), reference_key_id(&q));
+        if a == b || a[..8] != b[..8] {
+            return Err(format!("collider pair {} does not collide on the short id: {} {}", i, a, b));
+        }
+    }
     // key-id formula against the Python-made fixtures in the repository
     let alice = std::fs::read_to_string("/repo/tests/test_verifylib/workdir/alice.pub").map_err(|e| e.to_string())?;
     let d = KeyDesc { keytype: "rsa", scheme: "rsassa-pss-sha256", hash_algs: true, public: alice.trim().to_string() };
